@@ -17,6 +17,9 @@ def gen(ctx, q):
             continue
         ts = "fd" if sb in ("FLOAT", "DOUBLE") else "sifd"
         ns = [0, 1, 2, 7, 64, 505, 1001] if not q else [0, 1, rng.choice([2, 7, 64]), rng.choice([505, 1001])]
+        if not formats.is_granular(f):
+            # whole numbers of codec blocks (PAF24 10, SDS 40 / 60, G.72x 120, GSM 160 / 320, DWVW, ...): the close path must not add or drop a block
+            ns = ns + ([20, 120, 320, 640] if not q else [20, rng.choice([120, 320, 640])])
         if ch > 8:
             ns = [0, 1, 9]
         rates = RATES if not q else [8000, rng.choice(RATES), rng.choice([2 ** 30 - 1, 2 ** 31 - 1, 1, 65536])]
@@ -127,7 +130,7 @@ def run(ctx):
                     if a["mj"] == "AIFF" and a["rate"] >= 2 ** 30:
                         key = "AIFF:samplerate_from_2^30"
                 elif not (N <= F < N + B or pad_ok):
-                    key, msg = "%s:frame_count" % fam, "N=%d accepted, re-open reports F=%d (block %d) ch=%d rate=%d" % (N, F, B, a["ch"], a["rate"])
+                    key, msg = "%s:frame_count_%s" % (fam, "short" if F < N else "long"), "N=%d accepted, re-open reports F=%d (block %d) ch=%d rate=%d" % (N, F, B, a["ch"], a["rate"])
                     if a["mj"] == "PVF" and a["ch"] < 10 and a["rate"] < 10 and a["sb"] == "PCM_S8":
                         key = "PVF:header_shorter_than_12_bytes"
             if key and key not in seen:
